@@ -303,6 +303,7 @@ def _clear_caches():
     gc.collect()
 
 
+_TMERC = "+proj=tmerc +lat_0=0 +lon_0=%.2f +k=1 +x_0=0 +y_0=0 +ellps=WGS84 +units=m +no_defs +type=crs"
 UTM_POOL = [32600 + z for z in range(1, 61)] + [32700 + z for z in range(1, 61)]
 HIST_LABELS = ["4326", "4283", "3857", "3577", "32633", "32755", "3035", "6933", "sinu"]
 _REF = {}
@@ -387,6 +388,36 @@ def s_history(draw):
     return {"ops": ops}
 
 
+@st.composite
+def s_pressure(draw):
+    """fill the caches with hundreds of distinct CRSs, drop them, collect, then build fresh CRSs and ask for
+    transformers between them (and between CRSs that were alive all along)."""
+    ops = []
+    nobj = 0
+    for _ in range(draw(st.integers(1, 3))):
+        lab = draw(st.sampled_from(HIST_LABELS))
+        ops.append(["new", lab, draw(st.sampled_from(SINU_SPELLINGS if lab == "sinu" else ["int", "str_lower", "odc", "pickle"]))])
+        nobj += 1
+    start = draw(st.integers(-700, 0))
+    for _ in range(draw(st.integers(1, 3))):
+        ops.append(["fill", start, draw(st.sampled_from([40, 150, 300, 520]))])
+        start += 600
+        ops.append(["gc"])
+        for _ in range(draw(st.integers(2, 5))):
+            kind = draw(st.sampled_from(["new", "utm", "tr", "tr"]))
+            if kind == "new":
+                lab = draw(st.sampled_from(HIST_LABELS))
+                ops.append(["new", lab, draw(st.sampled_from(SINU_SPELLINGS if lab == "sinu" else ["int", "str_lower", "odc", "pickle"]))])
+                nobj += 1
+            elif kind == "utm":
+                ops.append(["new", "utm:%d" % draw(st.sampled_from(UTM_POOL)), "int"])
+                nobj += 1
+            else:
+                ops.append(["tr", draw(st.integers(0, nobj - 1)), draw(st.integers(0, nobj - 1)), draw(st.booleans())])
+        ops.append(["tr", draw(st.integers(0, nobj - 1)), nobj - 1, True])
+    return {"ops": ops}
+
+
 def o_history(case, T):
     from odc.geo.crs import CRS
     from pyproj import Transformer
@@ -421,6 +452,12 @@ def o_history(case, T):
             objs.append([op[1], op[2], construct(op[1], op[2])])
         elif op[0] == "burst":
             tmp = [_mk_utm("utm:%d" % UTM_POOL[(op[1] + i) % 120], op[3]) for i in range(op[2])]
+            del tmp
+            dropped = True
+        elif op[0] == "fill":
+            # many distinct short-lived CRSs (cache pressure): a bounded construction cache would evict and free
+            # pyproj objects whose ids the transformer cache still uses as keys
+            tmp = [CRS(_TMERC % ((op[1] + i) * 0.25)) for i in range(op[2])]
             del tmp
             dropped = True
         elif op[0] == "drop":
@@ -479,6 +516,8 @@ def o_history(case, T):
         T.cls("transformer_after_drop_gc")
     if any(o[0] == "burst" for o in case["ops"]):
         T.cls("has_burst")
+    if any(o[0] == "fill" for o in case["ops"]):
+        T.cls("fill_%d" % max(o[2] for o in case["ops"] if o[0] == "fill"))
     T.cls("ops_%d" % (len(case["ops"]) // 10 * 10))
 
 
@@ -534,4 +573,5 @@ def build(chk: Check) -> None:
     chk.sub("triples", o_triple, enum=e_triples, exhaustive_tiers=("thorough",), budget_s={"quick": 60, "thorough": 900})
     chk.sub("crs_routes", o_routes, enum=e_routes, exhaustive_tiers=("quick", "thorough"))
     chk.sub("history", o_history, strategy=s_history(), n={"quick": 300, "thorough": 20000})
+    chk.sub("cache_pressure", o_history, strategy=s_pressure(), n={"quick": 60, "thorough": 3000}, shrink=False, budget_s={"quick": 60, "thorough": 600})
     chk.known("D3", _known_d3)
